@@ -16,7 +16,7 @@ CHECKS = {
          "Every route returned by any algorithm on sampled networks/unit configurations/heading and delay tables is recomputed edge by edge from the generator's tables with independent SI factors and compared at 0.1 % (costs at 1e-9). One case in 40 goes through CompassApp::run with per-query state_features overrides (unit and initial value of distance / time): the response's per-edge result_state, its declared units and its traversal_summary are checked by the same oracle.",
          "SI table and independent turn classification in the harness; edge-oriented terminal edges may contribute nothing or their true traversal", "3.3"),
  "C04": (True, "runtime oracle: real frontier models built via their services; routes/trees compared with raw restriction inputs; Relax-after-FrontierReject hook invariant",
-         "Runs searches under the real road-class, vehicle-restriction, turn-restriction, combined and edge-cut frontier models on sampled inputs; no route/tree edge may be forbidden by an independent evaluation of the raw inputs and no consecutive route edges may be a listed turn.",
+         "Runs searches under the real road-class, vehicle-restriction, turn-restriction, combined and edge-cut frontier models on sampled inputs; no route/tree edge may be forbidden by an independent evaluation of the raw inputs and no consecutive route edges may be a listed turn. One case in 40 goes through CompassApp::run with the restriction files read by the real builders from the [frontier] section and the parameters taken from the query.",
          "independent SI comparison with >=1 % margins; origin/destination edges of edge-oriented queries exempt", "3.4"),
  "C05": (True, "runtime oracle: real searches on disconnected/restricted networks vs BFS/Dijkstra reachability over permitted edges",
          "Runs Dijkstra/A* (any weight factor), both orientations and directions, with and without destination, on networks with several blocks and edge-local restrictions; Ok/NoPath must match reference reachability, destination-less trees must equal the reachable set with least-cost labels.",
